@@ -27,6 +27,7 @@ type Batch struct {
 	RaceProp        string // property a race report in this batch is filed under (default C17)
 	RaceOwn         string // ... but only if its signature mentions this substring
 	Prepare         func(overlay string)
+	Bubble          bool // back end B: built with go1.26.8 (testing/synctest), one P, no async preemption
 	GenSim          bool // needs the generator built as a simulated process (cmd/gensim + overlay)
 	Family          bool // needs the generated binding family (generator built from /repo's current tree)
 	Real, Stub      []string
@@ -85,6 +86,7 @@ func init() {
 			{Pkg: "scen/s2", Scen: "feed", Cfg: "", Seams: seamsS2, NoRace: true, Quick: 60000, Thorough: 4000000, ThoroughSecs: 1500,
 				Real: []string{"v2/d2: waitForUriUpdates / waitForServiceUpdates loops, handleUriUpdate, handleServiceUpdate, serviceUris.copy, chooseHost / filterAndChooseHost, Uri.UnmarshalJSON, ResolveHostnameAndContextForQuery, getServiceUris on pre-seeded state", "v2/d2/lazymap"},
 				Stub: []string{"ZooKeeper and TreeCache (replaced by a pre-filled event channel, as in the repository's own tests)", "math/rand source behind d2.rng (values from the choice stream incl. exactly 0 and 1-2^-53)", "Go map iteration order in package d2 (permutation from the choice stream)", "goroutine scheduling (token kernel)"}},
+			s3b("", 1500, 150000),
 		},
 		Rule: "each run draws a service definition (6 prioritized-scheme lists), 0-2 pre-applied and 0-8 in-run announcement events over 3 znodes from {set (1-3 hosts x scheme x weight incl. 0 and non-dyadic), delete, malformed JSON, weight-less partition-only, root-path}, 0-2 service updates and 0-3 resolver tasks x 1-3 resolutions, plus the schedule, map orders and random values. A case is distinct by its (pre events, in-run events, service sequence) text and non-trivial when it has at least one event; schedules are counted separately.",
 		Assume: []string{
@@ -275,6 +277,14 @@ func init() {
 		Rule:   "determinism: each run generates one of {small manifest, binding family (12 types, 10 resources incl. sub-resources, simple resource, action set, complex key, union, includes, defaults), the checked-in v2/restlidata manifest} in a fresh generator process whose range-over-map sites iterate in an order drawn from the run's seed, and compares the tree byte for byte with the canonical-order generation; the restlidata tree is also compared with the checked-in *.gr.go files; second batch: regeneration over crashed / half-cleaned directories converges to the same tree. The generated family is compiled and vetted once per check. Distinct by (manifest, order seed).",
 		Assume: []string{"totality and compilability over the whole schema / resource grammar (and cyclic or clashing namespaces) is program enumeration and is not claimed; the family bounds what is compiled", "map ranges keyed by pointers cannot be ordered reproducibly and keep Go's own order (counted in the evidence as map-range-with-uncontrolled-key-type)", "sampled exploration"},
 	})
+}
+
+var seamsS3 = Seams{Add: "overlayfiles/d2/zz_verif_export.go=d2"}
+
+func s3b(cfg string, quick, thorough int) Batch {
+	return Batch{Pkg: "scen/s3", Scen: "zk", Cfg: cfg, Seams: seamsS3, Bubble: true, Quick: quick, Thorough: thorough, ThoroughSecs: 1200,
+		Real: []string{"v2/d2 complete: Client.getServiceUris, TreeCache, update loops, host selection; v2/d2/lazymap; github.com/go-zookeeper/zk v1.0.3 client (connection loop, watches, reconnect, session handling)"},
+		Stub: []string{"the ZooKeeper ensemble (sim/fakezk: jute wire protocol over net.Pipe)", "wall clock and timers (testing/synctest fake clock, go1.26.8)", "goroutine choice inside one stimulus' causal cone is NOT controlled (one P, no async preemption; trace determinism is measured by --selftest-determinism)"}}
 }
 
 func joinNonEmpty(s ...string) string {
